@@ -231,13 +231,18 @@ func (w *world) judgeReturn(r *run, si int, model outT, o *obsT) {
 		}
 	}
 	newProv := prov
-	if st != nil && (!traffic || model.R == "stale") {
+	if !traffic || model.R == "stale" || model.R == "hit" {
+		// a cached result: what is cached now, or (serve-stale) what was cached when the call began
 		prov = map[string]bool{}
 		for k := range newProv {
 			prov[k] = true
 		}
-		for k := range st.prov {
-			prov[k] = true
+		for _, s := range []*storedInfo{st, r.stAtStart} {
+			if s != nil {
+				for k := range s.prov {
+					prov[k] = true
+				}
+			}
 		}
 	}
 	if len(bad) > 0 {
@@ -437,9 +442,11 @@ func (w *world) judgeFree(r *run, si int) {
 			}
 		}
 	}
-	if st := w.stored[r.nameTok]; st != nil {
-		for k := range st.prov {
-			prov[k] = true
+	for _, s := range []*storedInfo{w.stored[r.nameTok], r.stAtStart} {
+		if s != nil {
+			for k := range s.prov {
+				prov[k] = true
+			}
 		}
 	}
 	all := append(append(slices.Clone(r.a), r.aaaa...), r.ips...)
@@ -598,7 +605,7 @@ func runBehaviour(res *vio.Result, virtual bool, seed int64, bi int, b vio.Behav
 					res.Break("behaviour %d step %d: UDP step in a virtual-time replay", bi, si)
 					return
 				}
-				if !w.waitQueries(r, 15*time.Second) {
+				if !w.waitQueries(r, 30*time.Second) {
 					w.mu.Lock()
 					fin, nq := r.fin, len(r.udpQs)
 					w.mu.Unlock()
@@ -606,7 +613,7 @@ func runBehaviour(res *vio.Result, virtual bool, seed int64, bi int, b vio.Behav
 						// the lookup returned instead of asking over UDP
 						break
 					}
-					res.Break("behaviour %d step %d: the upstream did not see both UDP queries within 15 s (%d seen)", bi, si, nq)
+					res.Break("behaviour %d step %d: the upstream did not see both UDP queries within 30 s (%d seen)", bi, si, nq)
 					return
 				}
 			}
